@@ -174,6 +174,7 @@ def gen_project(rnd):
         return ',\n  '.join(parts) + ')\n'
     # compiled targets (C): executables and libraries linking earlier libraries, in the root, after the custom targets
     compiled = []
+    mixed = rnd.random() < 0.4          # the project also has C++ sources
     if rnd.random() < 0.6:
         cn = ['e1', 'e2', 's1', 'd1x', 'b1']
         for j in range(rnd.randint(1, 3)):
@@ -185,7 +186,10 @@ def gen_project(rnd):
             libs = [c for c in compiled if c['kind'] != 'executable']
             link = rnd.sample(libs, min(len(libs), rnd.choice([0, 1])))
             outs = {'executable': [name], 'static_library': [f'lib{name}.a'], 'shared_library': [f'lib{name}.so'], 'both_libraries': [f'lib{name}.so', f'lib{name}.a']}[kind]
-            compiled.append({'name': name, 'kind': kind, 'sub': '', 'outs': outs, 'link': link, 'default': True, 'install': False, 'gen_src': rnd.random() < 0.3})
+            # a second language in the target (C++ next to C), and objects taken out of an earlier library (extract_all_objects)
+            extract = rnd.choice(libs) if libs and rnd.random() < 0.4 else None
+            compiled.append({'name': name, 'kind': kind, 'sub': '', 'outs': outs, 'link': link, 'default': True, 'install': False, 'gen_src': rnd.random() < 0.3,
+                             'cpp': mixed and rnd.random() < 0.6, 'extract': extract})
     unity = rnd.choice(['off', 'off', 'on']) if compiled else 'off'
     deflib = rnd.choice(['shared', 'static', 'both'])
 
@@ -193,10 +197,14 @@ def gen_project(rnd):
         srcs = "'m.c'" if c['kind'] == 'executable' else "'f.c'"
         if c['gen_src']:
             srcs += ", gen.process('x.in')"
+        if c.get('cpp'):
+            srcs += ", 'g.cpp'"
+        if c.get('extract'):
+            srcs += f", objects: {c['extract']['name']}.extract_all_objects(recursive: false)"
         lw = (', link_with: [' + ', '.join(x['name'] for x in c['link']) + ']') if c['link'] else ''
         return f"{c['name']} = {c['kind']}('{c['name']}', {srcs}{lw})\n"
     tests = []
-    lang = ", 'c'" if compiled else ''
+    lang = (", 'c', 'cpp'" if mixed else ", 'c'") if compiled else ''
     root_txt = "project('gen'" + lang + ", default_options: ['layout=" + layout + "', 'unity=" + unity + "', 'default_library=" + deflib + "'])\npy = find_program('python3')\n" + ''.join(decl(t) for t in root)
     if compiled:
         root_txt += "gen = generator(py, output: '@BASENAME@.c', arguments: ['-c', 'pass', '@INPUT@', '@OUTPUT@'])\n" + ''.join(cdecl(c) for c in compiled)
@@ -217,6 +225,7 @@ def gen_project(rnd):
         files['m.c'] = 'int main(void) { return 0; }\n'
         files['f.c'] = 'int f(void) { return 1; }\n'
         files['x.in'] = ''
+        files['g.cpp'] = 'int g() { return 2; }\n'
         if rnd.random() < 0.5:
             tail2 = "test('ct', " + next((c['name'] for c in compiled if c['kind'] == 'executable'), 'py') + ")\n"
             files['meson.build'] += tail2
@@ -456,7 +465,7 @@ def run(REG, tier, seed, jobs):
     seeds = [seed * 100003 + i for i in range(n)]
     ev, nt, fails = pmap(_graph_chunk, chunked(iter(seeds), 5), jobs)
     return {'parts': [apart, kpart, {'name': 'C04/bounded/generated-target-graphs-through-meson-setup', 'function': 'meson setup (ninja back end, stub ninja) -> build.ninja',
-                       'bound': f'{n} generated projects: <= 5 custom targets with 1-2 outputs over {NAMES!r} in the root and a subdirectory, inputs/depends on earlier targets, build_by_default / install, depfiles (one name shared by several targets); <= 3 compiled C targets (executable, static / shared / both libraries linking earlier libraries, generator-produced sources); tests, alias and run targets; layout mirror/flat, unity on/off, default_library shared/static/both',
+                       'bound': f'{n} generated projects: <= 5 custom targets with 1-2 outputs over {NAMES!r} in the root and a subdirectory, inputs/depends on earlier targets, build_by_default / install, depfiles (one name shared by several targets); <= 3 compiled C targets (executable, static / shared / both libraries linking earlier libraries, generator-produced sources); tests, alias and run targets; layout mirror/flat, unity on/off, default_library shared/static/both; C++ sources next to C ones, objects extracted from an earlier library',
                        'evaluations': ev, 'distinct_nontrivial': nt, 'rule': 'non-trivial: configured, or rejected for a collision', 'exhaustive': False, 'failures': fails}]}
 
 
